@@ -12,6 +12,7 @@ import json
 import os
 import random
 
+import e2e
 import vlib
 from vlib import log
 
@@ -302,7 +303,10 @@ def run(tier, replay):
             if meta[res["id"]]["nontrivial"] and not res.get("problem"):
                 sample = {"case": byid[res["id"]], "observed": res["obs"], "trace": res["trace"][:40]}
                 break
-        cov = {
+        # the limits as configured reach the limiters: real dserver and the serverless connector (free-running, judged from the output)
+        wiring_runs = e2e.stage_limits(wd, V, rng, tier)
+        log("limit wiring: %d client runs (serverless and over SSH) with MaxConcurrentCats below the number of files" % wiring_runs)
+        cov = {"limit_wiring_runs": wiring_runs,
             "states": states, "transitions": transitions,
             "traces_validated_against_impl": validated,
             "traces_accepted_by_strict_model": len(accepted_strict),
